@@ -211,7 +211,19 @@ impl BitvectorExtended for Bitvector {
             IntSRight => {
                 let shift_amount = rhs.try_to_u64().unwrap() as usize;
                 if shift_amount < self.width().to_usize() {
-                    Ok(self.clone().into_checked_ashr(shift_amount).unwrap())
+                    // The arithmetic shift of the `apint` crate (version 0.2) does not fill in the sign bits
+                    // for bitvectors larger than 8 bytes whose bit width is not a multiple of 64.
+                    // Thus we compute the shift on the sign-extended value.
+                    let width = self.width().to_usize();
+                    let padded_width = (width + 63) / 64 * 64;
+                    Ok(self
+                        .clone()
+                        .into_sign_extend(padded_width)
+                        .unwrap()
+                        .into_checked_ashr(shift_amount)
+                        .unwrap()
+                        .into_truncate(width)
+                        .unwrap())
                 } else {
                     let signed_bitvec = apint::Int::from(self.clone());
                     if signed_bitvec.is_negative() {
